@@ -42,7 +42,7 @@ RULE = ("op lines and witnesses come from one seeded PRNG: descriptor strings bu
         "malformed = single-character substitutions, bracket swaps, truncations, whitespace and digit spellings; "
         "a case is non-trivial when the implementation did not refuse it; distinct = distinct (stream, op line)")
 TRUSTED = [
-    "hand models Model/C14/{Descsum,Descriptor,Scan}.lean tied by correspondence only",
+    "hand models Model/C14/{Descsum,Descriptor,Scan,Wallet,CoreImport}.lean tied by correspondence only",
     "Model/C14/Descsum.lean `Ref` is a hand transcription of the BIP380 reference python; harness/c14.py holds a "
     "second, verbatim copy of that reference for the implementation side",
     "key atoms (extended key / curve point / WIF / address validity) are an oracle of the descriptor grammar model: "
@@ -57,7 +57,16 @@ ASSUMPTIONS = [
     "spaces around path steps and key atoms, leading zeros of indexes and thresholds, uppercase hex, a trailing "
     "`/` after an origin fingerprint or a key are read leniently by btclib and normalised on writing; the model "
     "mirrors that reading",
-    "T5 models derivation as a total function of (branch, index): inside the searched range it is",
+    "T5: the counted wallet theorems are stated on Scan.scanE, where a position that cannot be derived RAISES "
+    "(index past 65535 of an account wallet, a hardened step without the private key, an index past 2^31-1); the "
+    "total-function variants (index_of_find_first, position_of_find_first, …) hold only for ranges that derive "
+    "throughout and say so",
+    "hypotheses carried by counted theorems: parse_miniscript_of_text — Miniscript.numsOK (every number written with "
+    "at most ten digits, C15's digitsOK), shaped/allTyped/B/sane, raw compressed keys that are points, a text that "
+    "does not begin with a descriptor function name; tr_output_commits_to_key_and_tree / tr_key_only_output — "
+    "Lawful E.bip.o G (C01's statement), field below 2^256, 32-byte tagged hashes, tree depth <= 128, tweak in range, "
+    "tweaked point not at infinity; *_position_of_own — every position scanned before the asked one derives a "
+    "different script",
 ]
 
 IC = D.INPUT_CHARSET
@@ -285,7 +294,8 @@ def _scan_tokens(rows_tok):
     return [[] if r == "-" else [int(x) for x in r.split(",")] for r in rows_tok.split(";")]
 
 
-_WALLET_CTX_OPS = {"addr", "scan.posE", "w.bip32", "w.bip32.pos", "w.key", "w.script", "w.script.pos", "w.desc.pos"}
+_WALLET_CTX_OPS = {"addr", "scan.posE", "w.bip32", "w.bip32.pos", "w.key", "w.script", "w.script.pos", "w.desc.pos",
+                   "w.desc.map", "w.desc.mapspk"}
 _SCAN_CTX: dict = {}   # op line -> precomputed implementation answer (scan ops are answered from real objects)
 
 
@@ -1296,11 +1306,59 @@ def _o_brackets(w):
     return False, f"accepted {w['text']!r} and wrote it back as {str(d)!r}"
 
 
+def _o_wallet_labels(w):
+    """DescriptorWallet over a mapping with arbitrary labels, on the real code alone: `branches` is the labels in
+    ascending order; for every chain, the script at (label, index) is recognised, at a position that derives it and
+    that is not after (label, index) in (ascending label, index) order; a label that is not a branch is refused."""
+    try:
+        parsed = {b_: D.parse(t_, n_) for b_, n_, t_ in w["items"]}
+    except BTClibValueError:
+        return True, "not parsed"
+    try:
+        wal = DescriptorWallet(parsed)
+    except BTClibValueError:
+        bad = (any(b_ < 0 for b_ in parsed) or any(isinstance(d_, D.ComboDescriptor) for d_ in parsed.values())
+               or len({d_.network for d_ in parsed.values()}) != 1)
+        if bad:
+            return True, "refused: negative label / combo / networks"
+        first = parsed[min(parsed)]
+        try:
+            first.script_pub_key(0)
+        except BTClibValueError:
+            return True, "refused: first chain underivable"
+        return False, "a well-formed mapping was refused"
+    if wal.branches != tuple(sorted(parsed)):
+        return False, f"branches {wal.branches} are not the sorted labels {sorted(parsed)}"
+    last = w["last"]
+    for b_ in wal.branches:
+        i_ = last if wal.descriptor(b_).is_ranged else 0
+        try:
+            q = wal.script_pub_key(b_, i_).script
+        except BTClibValueError:
+            continue
+        try:
+            got = wal.position_of(q, last)
+        except BTClibValueError:
+            continue     # an earlier chain cannot be derived: the raise is wallet.raise's business
+        if got is None or wal.script_pub_key(*got).script != q or got > (b_, i_):
+            return False, f"position_of(script_pub_key({b_}, {i_})) = {got}"
+    for b_ in (min(parsed) + 1, max(parsed) + 1, -1):
+        if b_ in parsed:
+            continue
+        try:
+            wal.script_pub_key(b_, 0)
+            return False, f"script_pub_key({b_}, 0) answered for a label the wallet does not hold"
+        except BTClibValueError:
+            pass
+    return True, f"{len(parsed)} chains"
+
+
 ORACLES = {
     "derive": _o_derive, "corrupt": _o_corrupt, "roundtrip": _o_roundtrip, "atindex": _o_atindex,
     "multipath": _o_multipath, "index_of": _o_index_of, "wallet": _o_wallet, "wallet.agree": _o_wallet_agree, "wallet.raise": _o_wallet_raise, "wallet.address": _o_wallet_address,
     "wallet.ops": _o_wallet_ops, "checksum.reference": _o_checksum_ref,
     "opaque.roundtrip": _o_opaque_roundtrip, "brackets": _o_brackets, "int_digits": _o_int_digits,
+    "wallet.labels": _o_wallet_labels,
 }
 
 
@@ -1674,6 +1732,7 @@ def run(ctx):  # noqa: PLR0912, PLR0915
     stream(ctx, "scan.index", scan_lines)
 
     wallet_batch(ctx)
+    wallet_labels_batch(ctx)
     opaque_batch(ctx)
 
 
@@ -1858,6 +1917,109 @@ def _ctx_line(lines, ln, fn):
         out = _err(e)
     _SCAN_CTX[ln] = out
     lines.append(ln)
+
+
+def _atoms_join(texts):
+    """atoms of several descriptor texts (each judged on its own: an addr() argument is one atom)."""
+    seen, out = set(), []
+    for t_ in texts:
+        a = atoms_for(t_)
+        if a == "_":
+            continue
+        for e in a.split(";"):
+            if e not in seen:
+                seen.add(e)
+                out.append(e)
+    return ";".join(out) if out else "_"
+
+
+def wallet_labels_batch(ctx):
+    """DescriptorWallet(Mapping[int, Descriptor]): arbitrary labels (sparse, large, written in any order), the
+    constructor's refusals (negative label, combo(), descriptors of different networks, a first chain that cannot be
+    derived), position_of answering the LABEL in ascending-label search order, script_pub_key of a label the wallet
+    holds / does not hold.  Model: descWalletNew / walletChains / chainsPositionOf / chainsScriptPubKey."""
+    rng = ctx.rng
+    lines = []
+    kinds = ["wpkh", "tr", "pkh", "sh-wpkh", "wsh-multi", "rawtr", "pk", "fixed-pkh", "raw"]
+    for net in NETS[:3]:
+        g = Gen(rng, net)
+        other = rng.choice([n_ for n_ in NETS if NETWORKS[n_].hrp != NETWORKS[net].hrp] or [net])
+        for _ in range(ctx.n(14, 120)):
+            def chain(kind):
+                k = g.xkey(allow_hardened=False, canonical=True, ranged=True)
+                k2 = g.xkey(allow_hardened=False, canonical=True, ranged=True)
+                if kind == "fixed-pkh":
+                    return ("pkh", g.fixed_key(xonly_ok=False, uncompressed_ok=False, canonical=True))
+                if kind == "raw":
+                    return None
+                return {"wpkh": ("wpkh", k), "tr": ("tr", k, None), "pkh": ("pkh", k), "sh-wpkh": ("sh", ("wpkh", k)),
+                        "wsh-multi": ("wsh", ("multi", 1, [k, k2])), "rawtr": ("rawtr", k), "pk": ("pk", k)}[kind]
+            n_ch = rng.choice([1, 2, 2, 3, 4])
+            labels = rng.sample([0, 1, 2, 3, 5, 7, 11, 100, 65535, 65536, 2 ** 31 - 1, 2 ** 31, 2 ** 40], n_ch)
+            texts_, nets_ = [], []
+            for _k in range(n_ch):
+                kind = rng.choice(kinds)
+                sp = chain(kind)
+                texts_.append("raw(" + common.rand_bytes(rng, rng.choice([1, 22, 34])).hex() + ")" if sp is None
+                              else spec_text(sp))
+                nets_.append(net)
+            mode = rng.random()
+            if mode < 0.10:
+                labels[rng.randrange(n_ch)] = -rng.choice([1, 2, 2 ** 31])
+            elif mode < 0.18:
+                texts_[rng.randrange(n_ch)] = "combo(" + g.xkey(allow_hardened=False, canonical=True, ranged=True).text + ")"
+            elif mode < 0.28 and other != net:
+                # an addr() of another network among the chains (its network is its address's), or a chain parsed for another
+                j = rng.randrange(n_ch)
+                if rng.random() < 0.5:
+                    texts_[j] = "addr(" + ScriptPubKey(serialize(["OP_0", common.rand_bytes(rng, 20)]), other).address + ")"
+                else:
+                    nets_[j] = other
+            elif mode < 0.36:
+                # the chain under the SMALLEST label cannot be derived without private keys: refused at construction
+                j = labels.index(min(labels))
+                k = g.xkey(allow_hardened=False, canonical=True, ranged=True)
+                texts_[j] = "wpkh(" + k.xpub + "/*h)"
+            order = list(range(n_ch))
+            rng.shuffle(order)
+            items = [(labels[j], nets_[j], texts_[j]) for j in order]
+            try:
+                parsed = [(b_, D.parse(t_, n_)) for b_, n_, t_ in items]
+            except BTClibValueError:
+                continue
+            at = _atoms_join(texts_)
+            itok = ";".join(f"{b_}@{n_}@{T(t_)}" for b_, n_, t_ in items)
+            last = rng.choice([0, 1, 3])
+            try:
+                wal = DescriptorWallet(dict(parsed))
+            except BTClibValueError:
+                wal = None
+            ctx.count("wallet.labels", "refused" if wal is None else f"{n_ch} chains")
+            foreign = common.rand_bytes(rng, 23)
+            qs = [foreign]
+            ctx.check("wallet.labels", {"items": [list(x) for x in items], "last": last},
+                      key="wallet.labels")
+            if wal is not None:
+                for b_ in wal.branches:
+                    try:
+                        qs.append(wal.script_pub_key(b_, last if wal.descriptor(b_).is_ranged else 0).script)
+                    except BTClibValueError:
+                        continue
+            for q in qs:
+                _ctx_line(lines, f"w.desc.map {at} _ {last} {hx(q)} {itok}",
+                          (lambda q=q: wal.position_of(q, last)) if wal is not None
+                          else (lambda: DescriptorWallet(dict(parsed))))
+            asks = [(rng.choice(labels), rng.choice([0, last])), (rng.choice([0, 1, 4, 6, 2 ** 31 + 1, -1]), 0)]
+            for b_, i_ in asks:
+                def spk(b_=b_, i_=i_):
+                    w_ = DescriptorWallet(dict(parsed))
+                    head = ",".join(str(x) for x in w_.branches)
+                    try:
+                        return (head, w_.script_pub_key(b_, i_).script.hex())
+                    except BTClibValueError:
+                        return (head, "err")
+                _ctx_line(lines, f"w.desc.mapspk {at} _ {itok} {b_} {i_}", spk)
+    stream(ctx, "wallet.labels", lines)
 
 
 def wallet_batch(ctx):
